@@ -52,6 +52,13 @@ def _programs():
         return v * z
 
     @genjax.gen
+    def m4(x, z=0.25):
+        # 'v' depends ONLY on the keyword argument
+        a = genjax.flip(x) @ "a"
+        v = genjax.normal(0.0, z + 0.5) @ "v"
+        return v + a
+
+    @genjax.gen
     def inner(p, scale=1.0):
         s = genjax.flip(p) @ "s"
         return s * scale
@@ -66,6 +73,7 @@ def _programs():
         ("m2", m2, [(0.3, 0.6), (0.6, 0.45)], {}, ["a", "b"]),
         ("m3", m3, [(0.3, 0.6, 0.25), (0.6, 0.45, 0.5)], {}, ["a", "v"]),
         ("m3kw", m3, [(0.3, 0.6), (0.6, 0.45)], {"z": 0.5}, ["a", "v"]),
+        ("m4kw", m4, [(0.3,), (0.6,)], {"z": 0.5}, ["a", "v"]),
         ("outer", outer, [(0.3, 0.6), (0.6, 0.45)], {}, [("i", "s"), "j"]),
         ("normal", genjax.normal, [(0.3, 1.0), (0.6, 2.0)], {}, []),
     ]
@@ -195,6 +203,31 @@ def _run(name, gf, alph, kwargs, addrs, tier, seed):
                         both(lambda: ed(gf, new_full, Update(chm)), lambda: ed(cl, new_c, Update(chm)), "edit:Update", lab)
                         if addrs:
                             both(lambda: ed(gf, new_full, Regenerate(Selection.at[addrs[0]])), lambda: ed(cl, new_c, Regenerate(Selection.at[addrs[0]])), "edit:Regenerate", lab)
+        # editing through a closure whose stored keyword arguments DIFFER from those the trace was made
+        # with (the legal way to change them): equals the underlying edit with the merged new arguments
+        if kwargs:
+            jkw2 = {k: v * 2.0 for k, v in jkw.items()}
+            new_full = args0 + tuple(jkw2.values())
+            for split in range(0, n + 1):
+                cl2 = gf(*args0[:split], **jkw2)
+                extra = args0[split:]
+                variant = f"call:stored={split}/{n}:kw=changed"
+                for a in (addrs[:1] or [()]):
+                    at = a if isinstance(a, tuple) else (a,)
+                    v = full_choices[at] if at else full_choices.get_value()
+                    alt = jnp.logical_not(v) if v.dtype == jnp.bool_ else v + 0.5
+                    chm = ChoiceMap.entry(alt, *at)
+
+                    def ed2(g, ar, req):
+                        tr, w, rd, bwd = g.edit(key, base_tr, req, Diff.unknown_change(ar))
+                        return dict(_obs_tr(tr), w=w, rd=Diff.tree_primal(rd))
+
+                    reqs = [("edit:Update", Update(chm))]
+                    if addrs:
+                        reqs.append(("edit:Regenerate", Regenerate(Selection.at[addrs[0]])))
+                        reqs.append(("edit:Regenerate_none", Regenerate(Selection.none())))
+                    for rname, req in reqs:
+                        both(lambda: ed2(gf, new_full, req), lambda: ed2(cl2, extra, req), rname, variant)
         ctx.sample(dict(program=name, splits=n + 1, kwargs=kwargs))
 
     return run
